@@ -205,6 +205,56 @@ func c05owners(c *Ctx) {
 	}
 }
 
+// c05deleteByEvent: the per-node clean-up of a deleted reservation goes by the node of the object handed in.
+func c05deleteByEvent(c *Ctx) {
+	r := c.R
+	r.Decides("reservationCache.DeleteReservation cleans the per-node indexes under the node name of the object it is given (Unreserve hands over the node the reservation was assumed on; the cached object can meanwhile have been overwritten by an update that carries no node, e.g. an expiry)")
+	r.Rule("FLOW(delete by the given node): in reservationCache.DeleteReservation the node name passed to deleteReservationOnNode and used to index matchableOnNode / allocatedOnNode is read from the parameter's Status.NodeName only (never from the cached ReservationInfo)")
+	fn := c.Fn(resvPkg, "reservationCache", "DeleteReservation")
+	if fn == nil {
+		return
+	}
+	okSrc := func(v ssa.Value) (bool, string) {
+		for _, s := range cellSources(v) {
+			ld, isLd := s.(*ssa.UnOp)
+			if !isLd || ld.Op != token.MUL {
+				return false, an.Path(s)
+			}
+			_, f, base, ok := an.FieldOf(ld.X)
+			if !ok || f != "NodeName" || !isParamOf(fn, rootOf(base), 0) {
+				return false, an.Path(s)
+			}
+		}
+		return true, ""
+	}
+	n, ok := 0, true
+	why := ""
+	for _, cl := range an.Calls(fn, false) {
+		if an.ShortCallee(cl.Common()) == "deleteReservationOnNode" {
+			n++
+			if g, w := okSrc(cl.Common().Args[1]); !g {
+				ok, why = false, w
+			}
+		}
+	}
+	for _, b := range fn.Blocks {
+		for _, in := range b.Instrs {
+			lk, isLk := in.(*ssa.Lookup)
+			if !isLk {
+				continue
+			}
+			p := an.Path(lk.X)
+			if strings.HasSuffix(p, ".matchableOnNode") || strings.HasSuffix(p, ".allocatedOnNode") {
+				n++
+				if g, w := okSrc(lk.Index); !g {
+					ok, why = false, w
+				}
+			}
+		}
+	}
+	r.Check(ok && n >= 3, "FLOW", fkey(fn)+"/by-the-given-node", c.Pos(fn.Pos()), "indexes cleaned under the given object's node", sprintf("the per-node clean-up goes by another node name than the given object's (%s; %d uses examined): after an update without node overwrote the cached object, the roll-back cleans node \"\" and the index keeps a reservation that no longer exists", why, n))
+}
+
 func valueOf(in ssa.Instruction) ssa.Value {
 	v, _ := in.(ssa.Value)
 	return v
